@@ -59,6 +59,18 @@ def typed_fields(typ, is_buy, ttl):
     return is_buy, ttl
 
 
+def cloned(order, typ):
+    """order objects that went through a copy or a serialisation before submission (templates, orders built in
+    another process): equal in every field, but no attribute is the identical object any more."""
+    if typ == "dc":
+        import copy as _copy
+        return _copy.deepcopy(order)
+    if typ == "pk":
+        import pickle as _pickle
+        return _pickle.loads(_pickle.dumps(order))
+    return order
+
+
 def log_code(log) -> str:
     for k, v in LOG_CODE.items():
         if type(log) is k:
@@ -355,6 +367,7 @@ def make_classes(ctx: Ctx) -> Dict[str, type]:
                 else:
                     o = Order(agent_id=self.agent_id, market_id=market.market_id, is_buy=is_buy,
                               kind=MARKET_ORDER, volume=int(op.get("vol", 1)), ttl=ttl)
+                o = cloned(o, typ)
                 self.mine.append(o)
                 mon.on_built(self, o)
                 return o
@@ -651,6 +664,15 @@ def make_classes(ctx: Ctx) -> Dict[str, type]:
 
         def hooked_after_step_for_market(self, simulator, market):
             mon.probe_call(self.name, "market", False, market)
+            if self.spec.get("audit"):
+                # a reporting rule in the ask-forgiveness style: looks up every agent's position on this market and
+                # treats KeyError as "no account there"
+                for ag in simulator.agents:
+                    try:
+                        ag.asset_volumes[market.market_id]
+                    except KeyError:
+                        pass
+                mon.probe("positions_read_with_keyerror_fallback")
             iss = self.spec.get("issue")
             if iss and market.name == iss.get("market") and market.get_time() == int(iss.get("at", 0)) \
                     and market.outstanding_shares is not None:
